@@ -135,6 +135,13 @@ Proof.
   reflexivity.
 Qed.
 
+Lemma split_exec_eq fr st i item a r s :
+  st_stack st = [i] :: item :: s -> item = a ++ r ->
+  (b2z i < 128)%Z -> Z.to_nat (b2z i) = List.length a -> r <> [] ->
+  fits a -> fits r -> S (List.length s) < c_max_items cfg ->
+  interp OP_SPLIT fr st = Done tt fr (with_stack st (r :: a :: s)).
+Proof. intros Hs ->. apply split_exec. exact Hs. Qed.
+
 (* OP_WRITE_CACHE <1> k <1> : one item moved from the stack into cache[k] as a one-item list *)
 Lemma write_cache1_exec fr st k rest x s :
   data_at fr st = x01 :: k :: x01 :: rest -> st_stack st = x :: s ->
@@ -308,3 +315,667 @@ Proof.
 Qed.
 
 End Run.
+
+(* ---------------------------------------------------------------------------------------------- *)
+(* 2. the delegate-key lock                                                                        *)
+(* ---------------------------------------------------------------------------------------------- *)
+
+(* the bytes of make_delegate_key_lock(root, fl), spelled out *)
+Definition lock_pre : bytes :=
+  [x02;x29; x38; x09;x01;x73;x01; x1d; x02;x28; x38; x06; x02;x24; x38; x09;x01;x65;x01;
+   x02;x20; x38; x09;x01;x62;x01; x09;x01;x64;x01; x0a;x01;x62; x26; x0a;x01;x65; x25; x2e; x20;
+   x0a;x01;x73; x35; x03].
+Definition lock_tail (fl : byte) : bytes := [x4a; x20; x0a;x01;x64; x23;fl].
+Definition lock_bytes (root : bytes) (fl : byte) : bytes :=
+  lock_pre ++ z2b (blen root) :: root ++ lock_tail fl.
+
+Lemma delegate_key_lock_bytes root fl : delegate_key_lock root fl = lock_bytes root fl.
+Proof. reflexivity. Qed.
+
+Lemma delegate_key_witness_bytes sig cert :
+  delegate_key_witness sig cert = x03 :: z2b (blen sig) :: sig ++ x03 :: z2b (blen cert) :: cert.
+Proof. unfold delegate_key_witness, encode. cbn. rewrite app_nil_r. reflexivity. Qed.
+
+Lemma lock_skip78 root fl : List.length root = 32 -> skipn 78 (lock_bytes root fl) = lock_tail fl.
+Proof.
+  intro LR. unfold lock_bytes. change 78 with (45 + (1 + 32)).
+  rewrite skipn_add, (skipn_len_app lock_pre) by reflexivity.
+  exact (skipn_len_app root (lock_tail fl) 32 LR).
+Qed.
+
+Lemma lock_skip79 root fl : List.length root = 32 ->
+  skipn 79 (lock_bytes root fl) = [x20; x0a;x01;x64; x23;fl].
+Proof. intro LR. exact (skipn_S_of _ _ _ _ (lock_skip78 root fl LR)). Qed.
+Lemma lock_skip80 root fl : List.length root = 32 ->
+  skipn 80 (lock_bytes root fl) = [x0a;x01;x64; x23;fl].
+Proof. intro LR. exact (skipn_S_of _ _ _ _ (lock_skip79 root fl LR)). Qed.
+Lemma lock_skip83 root fl : List.length root = 32 -> skipn 83 (lock_bytes root fl) = [x23;fl].
+Proof.
+  intro LR. exact (skipn_S_of _ _ _ _ (skipn_S_of _ _ _ _ (skipn_S_of _ _ _ _ (lock_skip80 root fl LR)))).
+Qed.
+Lemma lock_length root fl : List.length root = 32 -> List.length (lock_bytes root fl) = 85.
+Proof. intro LR. unfold lock_bytes. rewrite app_length. cbn [List.length]. rewrite app_length, LR. reflexivity. Qed.
+
+Lemma msg_of_set_bytes f c k v : msg_of f (cache_set c (KBytes k) v) = msg_of f c.
+Proof.
+  apply excluded_fields_irrelevant. intros i _ _. apply cache_get_set_other. reflexivity.
+Qed.
+
+Lemma css_verdict_true orc k m s :
+  css_verdict orc k m s = true <-> exists x, orc PVerify [k; m; s] = OOk [x] /\ bytes_to_bool x = true.
+Proof.
+  unfold css_verdict. destruct (orc PVerify [k; m; s]) as [[|x [|y l]]|err]; split; try discriminate;
+    try (intros (x' & H & _); discriminate).
+  - intro H. exists x. split; [reflexivity|exact H].
+  - intros (x' & H & Hb). injection H as <-. exact Hb.
+Qed.
+
+Ltac norm :=
+  unfold with_stack, with_cache, fwd, adv;
+  cbn [st_stack st_cache st_tapes st_defs st_log st_rand fr_ptr fr_tid Nat.add].
+
+Ltac cache_here :=
+  cbn [st_cache]; repeat (rewrite cache_get_set_other by reflexivity); apply cache_get_set_same.
+
+Section Witness.
+Variable orc : oracle.
+Variable cfg : config.
+
+Lemma dk_witness_runs f sig cert vals :
+  List.length sig < 256 -> List.length cert < 256 ->
+  fits cfg sig -> fits cfg cert -> 2 <= c_max_items cfg ->
+  exists fr,
+  run_script orc cfg (S (S (S f))) (delegate_key_witness sig cert) vals =
+    Done tt fr (with_stack (init_state cfg (delegate_key_witness sig cert) vals) [cert; sig]).
+Proof.
+  intros Ls Lc Fs Fc Hit. unfold run_script.
+  set (st0 := init_state cfg (delegate_key_witness sig cert) vals).
+  assert (Hd : tdata st0 0 = x03 :: z2b (blen sig) :: sig ++ x03 :: z2b (blen cert) :: cert ++ []).
+  { unfold tdata, st0, init_state, nth_tape. cbn [st_tapes nth to_data].
+    rewrite delegate_key_witness_bytes, app_nil_r. reflexivity. }
+  erewrite run_tape_step; [|exact Hd|reflexivity|].
+  2:{ intro Hda. change (dispatch _) with OP_PUSH1.
+      eapply (push1_at orc cfg _ _ _ sig _ []); [exact Hda|exact Ls|reflexivity|exact Fs|].
+      unfold StackLemmas.space. simpl. lia. }
+  norm.
+  erewrite run_tape_step; [|exact Hd| |].
+  2:{ cbn [skipn]. apply skipn_after. }
+  2:{ intro Hda. change (dispatch _) with OP_PUSH1.
+      eapply (push1_at orc cfg _ _ _ cert [] [sig]); [exact Hda|exact Lc|reflexivity|exact Fc|].
+      unfold StackLemmas.space. simpl. lia. }
+  norm.
+  rewrite run_tape_end.
+  - eexists. reflexivity.
+  - change (tdata _ 0) with (tdata st0 0). rewrite Hd. rewrite app_nil_r. simpl. rewrite !app_length. simpl. lia.
+Qed.
+
+End Witness.
+
+Section Lock.
+Variable orc : oracle.
+Variable cfg : config.
+Hypothesis Hsize : 105 <= c_max_item_size cfg.
+Hypothesis Hitems : 4 <= c_max_items cfg.
+
+Variables root D b e csig sig : bytes.
+Variables can fl : byte.
+Variables ts thr : Z.
+Hypothesis LR : List.length root = 32.
+Hypothesis LD : List.length D = 32.
+Hypothesis Lb : List.length b = 4.
+Hypothesis Le : List.length e = 4.
+Hypothesis Lc : List.length csig = 64.
+Hypothesis Lsig : List.length sig = 64 \/ List.length sig = 65.
+Hypothesis Hthr : flag_get (c_flags cfg) thr_key = Some (FVInt thr).
+
+Definition preimage : bytes := D ++ b ++ e ++ [can].
+
+(* the certificate's signature verifies under the root key, over the 41-byte preimage *)
+Definition cert_ok : Prop :=
+  exists x, orc PVerify [root; preimage; csig] = OOk [x] /\ bytes_to_bool x = true.
+
+Definition delegate_accepts (c : cache) : Prop :=
+  ts_verdict cfg (be_to_Z b) ts thr = true /\
+  ts_verdict cfg (be_to_Z e) ts thr = false /\
+  cert_ok /\
+  sig_accepts orc cfg D sig (b2z fl) c.
+
+(* the only way to leave the model: the oracle answers the final verification with <> 1 items *)
+Definition delegate_unmod (c : cache) : Prop :=
+  ts_verdict cfg (be_to_Z b) ts thr = true /\
+  ts_verdict cfg (be_to_Z e) ts thr = false /\
+  cert_ok /\
+  exists m l, msg_of (sig_flag sig) c = Some m /\
+              orc PVerify [D; m; firstn 64 sig] = OOk l /\ List.length l <> 1.
+
+Ltac side :=
+  unfold StackLemmas.fits, StackLemmas.space, room, preimage; cbn [st_stack List.length];
+  repeat rewrite app_length; cbn [List.length]; blia.
+
+Ltac t_push0 Hd :=
+  erewrite run_tape_step; [|exact Hd|reflexivity|
+    let Hda := fresh "Hda" in intro Hda; change (dispatch _) with OP_PUSH0;
+    eapply push0_exec; [exact Hda|reflexivity|side|side]]; norm.
+Ltac t_wc Hd :=
+  erewrite run_tape_step; [|exact Hd|reflexivity|
+    let Hda := fresh "Hda" in intro Hda; change (dispatch _) with OP_WRITE_CACHE;
+    eapply write_cache1_exec; [exact Hda|reflexivity]]; norm.
+Ltac t_rc Hd :=
+  erewrite run_tape_step; [|exact Hd|reflexivity|
+    let Hda := fresh "Hda" in intro Hda; change (dispatch _) with OP_READ_CACHE;
+    eapply read_cache1_exec; [exact Hda|cache_here|reflexivity|side|side]]; norm.
+
+Ltac t_ts Hts :=
+  cbn [st_cache]; repeat (rewrite cache_get_set_other by reflexivity); exact Hts.
+
+Definition lock_outcome (c : cache) (r : outcome unit) : Prop :=
+  match r with
+  | Done _ _ st' => exists v, st_stack st' = [boolb v] /\ (v = true <-> delegate_accepts c)
+  | Raised _ _ _ => ~ delegate_accepts c
+  | OutOfFuel => False
+  | Unmodelled _ => delegate_unmod c
+  end.
+
+Lemma lock_runs f st0 tid c :
+  tdata st0 tid = lock_bytes root fl ->
+  st_stack st0 = [preimage ++ csig; sig] ->
+  cache_get (st_cache st0) ts_key = Some (VOne (AInt ts)) ->
+  (forall g, msg_of g (st_cache st0) = msg_of g c) ->
+  lock_outcome c (run_tape orc cfg (28 + f) tid 0 st0).
+Proof.
+  intros Hd Hst Hts Hmsg.
+  cbn [Nat.add].
+  destruct st0 as [stk0 c0 T0 D0 L0 R0]. cbn [st_stack st_cache] in Hst, Hts, Hmsg. subst stk0.
+  (* 1: PUSH0 41 *)
+  erewrite run_tape_step; [|exact Hd|reflexivity|].
+  2:{ intro Hda. change (dispatch _) with OP_PUSH0.
+      eapply push0_exec; [exact Hda|reflexivity|side|side]. }
+  norm.
+  (* 2: SPLIT *)
+  erewrite run_tape_step; [|exact Hd|reflexivity|].
+  2:{ intros _. change (dispatch _) with OP_SPLIT.
+      eapply (split_exec orc cfg _ _ _ x29 preimage csig [sig]); [reflexivity|reflexivity| | |side|side|side].
+      - unfold preimage. rewrite !app_length, LD, Lb, Le. reflexivity.
+      - intro E. rewrite E in Lc. discriminate. }
+  norm.
+  (* 3: WRITE_CACHE s 1 *)
+  t_wc Hd.
+  (* 4: DUP *)
+  erewrite run_tape_step; [|exact Hd|reflexivity|].
+  2:{ intros _. change (dispatch _) with OP_DUP. eapply dup_exec; [reflexivity|side|side]. }
+  norm.
+  (* 5: PUSH0 40 ; 6: SPLIT *)
+  t_push0 Hd.
+  erewrite run_tape_step; [|exact Hd|reflexivity|].
+  2:{ intros _. change (dispatch _) with OP_SPLIT.
+      eapply (split_exec_eq orc cfg _ _ _ x28 preimage (D ++ b ++ e) [can] [preimage; sig]);
+        [reflexivity| |reflexivity| |discriminate|side|side|side].
+      - unfold preimage. rewrite <- !app_assoc. reflexivity.
+      - rewrite !app_length, LD, Lb, Le. reflexivity. }
+  norm.
+  (* 7: POP0 *)
+  erewrite run_tape_step; [|exact Hd|reflexivity|].
+  2:{ intros _. change (dispatch _) with OP_POP0. eapply pop0_exec. reflexivity. }
+  norm.
+  (* 8: PUSH0 36 ; 9: SPLIT ; 10: WRITE_CACHE e 1 *)
+  t_push0 Hd.
+  erewrite run_tape_step; [|exact Hd|reflexivity|].
+  2:{ intros _. change (dispatch _) with OP_SPLIT.
+      eapply (split_exec_eq orc cfg _ _ _ x24 (D ++ b ++ e) (D ++ b) e [preimage; sig]);
+        [reflexivity| |reflexivity| | |side|side|side].
+      - rewrite <- !app_assoc. reflexivity.
+      - rewrite !app_length, LD, Lb. reflexivity.
+      - intro E. rewrite E in Le. discriminate. }
+  norm.
+  t_wc Hd.
+  (* 11: PUSH0 32 ; 12: SPLIT ; 13: WRITE_CACHE b 1 ; 14: WRITE_CACHE d 1 *)
+  t_push0 Hd.
+  erewrite run_tape_step; [|exact Hd|reflexivity|].
+  2:{ intros _. change (dispatch _) with OP_SPLIT.
+      eapply (split_exec orc cfg _ _ _ x20 D b [preimage; sig]);
+        [reflexivity|reflexivity| | |side|side|side].
+      - rewrite LD. reflexivity.
+      - intro E. rewrite E in Lb. discriminate. }
+  norm.
+  t_wc Hd. t_wc Hd.
+  (* 15: READ_CACHE b *)
+  t_rc Hd.
+  (* 16: CHECK_TIMESTAMP_VERIFY *)
+  erewrite run_tape_fetch_at; [|exact Hd|reflexivity].
+  change (dispatch _) with OP_CHECK_TIMESTAMP_VERIFY.
+  rewrite (check_timestamp_verify_spec orc cfg _ _ _ b [preimage; sig] ts thr);
+    [|reflexivity|intro E; rewrite E in Lb; discriminate|t_ts Hts|exact Hthr|side].
+  destruct (ts_verdict cfg (be_to_Z b) ts thr) eqn:V1.
+  2:{ cbn [lock_outcome]. intros (H & _). congruence. }
+  norm.
+  (* 17: READ_CACHE e ; 18: CHECK_TIMESTAMP ; 19: NOT *)
+  t_rc Hd.
+  erewrite run_tape_step; [|exact Hd|reflexivity|].
+  2:{ intros _. change (dispatch _) with OP_CHECK_TIMESTAMP.
+      apply (check_timestamp_spec orc cfg _ _ _ e [preimage; sig] ts thr);
+        [reflexivity|intro E; rewrite E in Le; discriminate|t_ts Hts|exact Hthr|side]. }
+  norm.
+  erewrite run_tape_step; [|exact Hd|reflexivity|].
+  2:{ intros _. change (dispatch _) with OP_NOT. eapply not_exec; [reflexivity|side]. }
+  norm.
+  (* 20: VERIFY *)
+  erewrite run_tape_fetch_at; [|exact Hd|reflexivity].
+  change (dispatch _) with OP_VERIFY.
+  erewrite verify_exec by reflexivity. rewrite bytes_to_bool_boolb.
+  destruct (ts_verdict cfg (be_to_Z e) ts thr) eqn:V2; cbn [negb].
+  { cbn [lock_outcome]. intros (_ & H & _). congruence. }
+  norm.
+  (* 21: READ_CACHE s ; 22: SWAP2 ; 23: PUSH1 root *)
+  t_rc Hd.
+  erewrite run_tape_step; [|exact Hd|reflexivity|].
+  2:{ intros _. change (dispatch _) with OP_SWAP2. eapply swap2_exec; [reflexivity|side|side|side]. }
+  norm.
+  erewrite run_tape_step; [|exact Hd|reflexivity|].
+  2:{ intro Hda. change (dispatch _) with OP_PUSH1.
+      eapply (push1_at orc cfg _ _ _ root (lock_tail fl)); [exact Hda|blia|reflexivity|side|side]. }
+  rewrite LR. norm.
+  (* 24: CHECK_SIG_STACK *)
+  erewrite run_tape_step; [|exact Hd|apply (lock_skip78 root fl LR)|].
+  2:{ intros _. change (dispatch _) with OP_CHECK_SIG_STACK.
+      eapply check_sig_stack_exec; [reflexivity|exact LR|exact Lc|side]. }
+  norm.
+  (* 25: VERIFY *)
+  erewrite run_tape_fetch_at; [|exact Hd|apply (lock_skip79 root fl LR)].
+  change (dispatch _) with OP_VERIFY.
+  erewrite verify_exec by reflexivity. rewrite bytes_to_bool_boolb.
+  destruct (css_verdict orc root preimage csig) eqn:V3.
+  2:{ cbn [lock_outcome]. intros (_ & _ & H & _). apply css_verdict_true in H. congruence. }
+  apply css_verdict_true in V3.
+  norm.
+  (* 26: READ_CACHE d *)
+  erewrite run_tape_step; [|exact Hd|apply (lock_skip80 root fl LR)|].
+  2:{ intro Hda. change (dispatch _) with OP_READ_CACHE.
+      eapply read_cache1_exec; [exact Hda|cache_here|reflexivity|side|side]. }
+  norm.
+  (* 27: CHECK_SIG fl *)
+  match goal with |- context [run_tape _ _ _ _ 83 ?s] => set (st26 := s) end.
+  erewrite run_tape_fetch_at; [|exact Hd|apply (lock_skip83 root fl LR)].
+  change (dispatch _) with OP_CHECK_SIG.
+  assert (Hda : data_at {| fr_tid := tid; fr_ptr := 84 |} st26 = [fl])
+    by exact (data_at_next tid 83 st26 _ x23 [fl] Hd (lock_skip83 root fl LR)).
+  rewrite (check_sig_decomposed orc cfg _ _ st26 fl [] Hda).
+  rewrite (check_sig_body_exact orc cfg _ (b2z fl) _ (sigext_log cfg st26) D sig []) by reflexivity.
+  cbv zeta. unfold blen. rewrite LD. change (Z.of_nat 32 =? 32)%Z with true. cbn [negb].
+  assert (Hs2 : ((Z.of_nat (List.length sig) =? 64) || (Z.of_nat (List.length sig) =? 65))%Z = true).
+  { destruct Lsig as [->| ->]; reflexivity. }
+  rewrite Hs2. cbn [negb].
+  assert (Hc : msg_of (sig_flag sig) (st_cache (sigext_log cfg st26)) = msg_of (sig_flag sig) c).
+  { unfold st26, pop_key. cbn [st_cache sigext_log with_log]. rewrite !msg_of_set_bytes. apply Hmsg. }
+  rewrite Hc. clear Hc.
+  destruct (flags_permitted (sig_flag sig) (b2z fl)) eqn:Ef; cbn [negb].
+  2:{ cbn [lock_outcome]. intros (_ & _ & _ & Hf & _). congruence. }
+  destruct (msg_of (sig_flag sig) c) as [m|] eqn:Em.
+  2:{ cbn [lock_outcome]. intros (_ & _ & _ & _ & m & x & H & _). congruence. }
+  cbn [List.length].
+  replace (c_max_items cfg <=? 0) with false by (symmetry; apply Nat.leb_gt; lia).
+  rewrite orb_false_r.
+  destruct (c_max_item_size cfg <? List.length m) eqn:El.
+  { apply Nat.ltb_lt in El. cbn [lock_outcome]. intros (_ & _ & _ & _ & m' & x & H & Hlen & _).
+    rewrite Em in H. injection H as <-. lia. }
+  apply Nat.ltb_ge in El.
+  destruct (orc PVerify [D; m; firstn 64 sig]) as [[|x [|y l]]|err] eqn:Eo.
+  - cbn [lock_outcome]. split; [exact V1|]. split; [exact V2|]. split; [exact V3|].
+    exists m, []. split; [exact Em|]. split; [exact Eo|]. simpl. lia.
+  - replace (c_max_item_size cfg <? 1) with false by (symmetry; apply Nat.ltb_ge; lia).
+    rewrite run_tape_end.
+    2:{ assert (Hd26 : tdata st26 tid = lock_bytes root fl) by exact Hd.
+        match goal with |- List.length (tdata ?s tid) <= _ => change (tdata s tid) with (tdata st26 tid) end.
+        rewrite Hd26, (lock_length root fl LR).
+        unfold adv. cbn [fr_ptr]. lia. }
+    cbn [lock_outcome]. exists (bytes_to_bool x). split; [reflexivity|].
+    split.
+    + intro Hb. split; [exact V1|]. split; [exact V2|]. split; [exact V3|]. split; [exact Ef|].
+      exists m, x. split; [exact Em|]. split; [exact El|]. split; [exact Eo|exact Hb].
+    + intros (_ & _ & _ & _ & m' & x' & H1 & _ & H2 & H3).
+      rewrite Em in H1. injection H1 as <-. rewrite Eo in H2. injection H2 as <-. exact H3.
+  - cbn [lock_outcome]. split; [exact V1|]. split; [exact V2|]. split; [exact V3|].
+    exists m, (x :: y :: l). split; [exact Em|]. split; [exact Eo|]. simpl. lia.
+  - cbn [lock_outcome]. intros (_ & _ & _ & _ & m' & x & H1 & _ & H2 & _).
+    rewrite Em in H1. injection H1 as <-. rewrite Eo in H2. discriminate.
+Qed.
+
+(* the pair (witness pushing sig then cert, lock for root key with allowed-flags byte fl): every outcome *)
+Theorem delegate_lock_exact f vals :
+  cache_get (init_cache cfg vals) ts_key = Some (VOne (AInt ts)) ->
+  match run_auth_scripts orc cfg (28 + f)
+          [delegate_key_witness sig (D ++ b ++ e ++ [can] ++ csig); delegate_key_lock root fl] vals with
+  | AuthVerdict v _ => v = true <-> delegate_accepts (init_cache cfg vals)
+  | AuthFuel => False
+  | AuthUnmod _ => delegate_unmod (init_cache cfg vals)
+  end.
+Proof.
+  intro Hts.
+  assert (Hcert : D ++ b ++ e ++ [can] ++ csig = preimage ++ csig)
+    by (unfold preimage; rewrite <- !app_assoc; reflexivity).
+  rewrite Hcert. unfold run_auth_scripts.
+  change (28 + f) with (S (S (S (25 + f)))).
+  destruct (dk_witness_runs orc cfg (25 + f) sig (preimage ++ csig) vals) as [fr0 Hw];
+    [blia|unfold preimage; repeat rewrite app_length; cbn [List.length]; blia|side|side|lia|].
+  rewrite Hw. rewrite auth_rest_unfold.
+  match goal with |- context [next_start ?s 0 _] => set (st1 := s) end.
+  set (tid := fst (next_start st1 0 (delegate_key_lock root fl))).
+  set (st2 := snd (next_start st1 0 (delegate_key_lock root fl))).
+  assert (Hd : tdata st2 tid = lock_bytes root fl) by reflexivity.
+  assert (Hst : st_stack st2 = [preimage ++ csig; sig]) by reflexivity.
+  assert (Hts2 : cache_get (st_cache st2) ts_key = Some (VOne (AInt ts))).
+  { change (st_cache st2) with (cache_del (init_cache cfg vals) returned_key).
+    rewrite cache_get_del_other by reflexivity. exact Hts. }
+  assert (Hmsg : forall g, msg_of g (st_cache st2) = msg_of g (init_cache cfg vals)).
+  { intro g. change (st_cache st2) with (cache_del (init_cache cfg vals) returned_key).
+    apply msg_of_del_returned. }
+  pose proof (lock_runs f st2 tid (init_cache cfg vals) Hd Hst Hts2 Hmsg) as H.
+  change (S (S (S (25 + f)))) with (28 + f).
+  destruct (run_tape orc cfg (28 + f) tid 0 st2) as [[] fr' st'|err fr' st'| |w]; cbn [lock_outcome] in H.
+  - destruct H as (v & Hs & Hv). cbn [auth_rest]. rewrite Hs.
+    replace (bytes_eqb (boolb v) [xff]) with v by (destruct v; reflexivity). exact Hv.
+  - split; [discriminate|]. intro Ha. contradiction.
+  - exact H.
+  - exact H.
+Qed.
+
+(* verdict True  <->  the four conditions *)
+Corollary delegate_lock_true_iff f vals :
+  cache_get (init_cache cfg vals) ts_key = Some (VOne (AInt ts)) ->
+  ((exists stf, run_auth_scripts orc cfg (28 + f)
+       [delegate_key_witness sig (D ++ b ++ e ++ [can] ++ csig); delegate_key_lock root fl] vals
+       = AuthVerdict true stf)
+   <-> delegate_accepts (init_cache cfg vals)).
+Proof.
+  intro Hts. pose proof (delegate_lock_exact f vals Hts) as H.
+  destruct (run_auth_scripts orc cfg (28 + f) _ vals) as [v st| |w].
+  - split.
+    + intros (stf & E). injection E as -> _. apply H. reflexivity.
+    + intro Ha. apply H in Ha. subst v. exists st. reflexivity.
+  - contradiction.
+  - split; [intros (stf & E); discriminate|].
+    intros (_ & _ & _ & _ & m & x & Hm & _ & Ho & _).
+    destruct H as (_ & _ & _ & m' & l & Hm' & Ho' & Hl).
+    rewrite Hm in Hm'. injection Hm' as <-. rewrite Ho in Ho'. injection Ho' as <-. simpl in Hl. congruence.
+Qed.
+
+End Lock.
+
+(* given "begin <= t within the slack", the negated end test says exactly t < end (and only then: D11) *)
+Lemma end_test_meaning cfg cb ce ts thr :
+  ts_verdict cfg cb ts thr = true ->
+  (ts_verdict cfg ce ts thr = false <-> (ts < ce)%Z).
+Proof.
+  unfold ts_verdict. intro H. apply andb_true_iff in H. destruct H as [_ ->].
+  rewrite andb_true_r. rewrite Z.leb_gt. reflexivity.
+Qed.
+
+(* ---------------------------------------------------------------------------------------------- *)
+(* 3. Certificate.preimage / pack / unpack                                                         *)
+(* ---------------------------------------------------------------------------------------------- *)
+
+Local Open Scope Z_scope.
+
+(* "while len(x) < 4: x = b'\x00' + x" *)
+Definition pad4 (l : bytes) : bytes := repeat x00 (4 - List.length l) ++ l.
+
+Definition can_byte (can : bool) : byte := if can then xff else x00.
+
+(* None = the method raises (ValueError / TypeError / OverflowError) *)
+Definition cert_preimage (fl2 : Z -> Z) (D : bytes) (b e : Z) (can : bool) : option bytes :=
+  if negb (blen D =? 32) then None
+  else if negb ((0 <=? b) && (b <? 2 ^ 31)) then None
+  else if negb ((0 <=? e) && (e <? 2 ^ 31)) then None
+  else match int_to_bytes fl2 b, int_to_bytes fl2 e with
+       | Some bb, Some eb => Some (D ++ pad4 bb ++ pad4 eb ++ [can_byte can])
+       | _, _ => None
+       end.
+
+Definition cert_pack (fl2 : Z -> Z) (D : bytes) (b e : Z) (can : bool) (csig : bytes) : option bytes :=
+  if negb (blen csig =? 64) then None
+  else match cert_preimage fl2 D b e can with Some p => Some (p ++ csig) | None => None end.
+
+Definition cert_unpack (data : bytes) : option (bytes * Z * Z * bool * bytes) :=
+  if negb (blen data =? 105) then None
+  else
+    let D := firstn 32 data in let d1 := skipn 32 data in
+    let bb := firstn 4 d1 in let d2 := skipn 4 d1 in
+    let eb := firstn 4 d2 in let d3 := skipn 4 d2 in
+    let can := b2z (nth 0 d3 x00) =? 255 in
+    let csig := skipn 1 d3 in
+    match bytes_to_int bb, bytes_to_int eb with
+    | Some b, Some e => Some (D, b, e, can, csig)
+    | _, _ => None
+    end.
+
+(* floor(log2) as computed by math.log2 is exact on the timestamps a certificate may carry *)
+Definition fl2_exact_below31 (fl2 : Z -> Z) : Prop := forall a, 0 < a < 2 ^ 31 -> fl2 a = Z.log2 a.
+
+Lemma fl2_exact_is_exact_below31 : fl2_exact_below31 fl2_exact.
+Proof. intros a _. reflexivity. Qed.
+
+(* left-padding with zero bytes does not change the big-endian value *)
+Lemma be_to_Z_zero_pad n l : be_to_Z (repeat x00 n ++ l) = be_to_Z l.
+Proof.
+  induction n as [|n IH]; [reflexivity|].
+  cbn [repeat app]. rewrite be_to_Z_cons, IH. change (b2z x00) with 0. lia.
+Qed.
+
+Lemma pad4_value l : be_to_Z (pad4 l) = be_to_Z l.
+Proof. apply be_to_Z_zero_pad. Qed.
+
+Lemma pad4_length l : (List.length l <= 4)%nat -> List.length (pad4 l) = 4%nat.
+Proof. intro H. unfold pad4. rewrite app_length, repeat_length. lia. Qed.
+
+(* a 4-byte string whose value is below 2^31 decodes to that value *)
+Lemma bytes_to_int_4 l : List.length l = 4%nat -> be_to_Z l < 2 ^ 31 -> bytes_to_int l = Some (be_to_Z l).
+Proof.
+  intros Hl Hv. rewrite bytes_to_int_spec by (intros ->; discriminate).
+  unfold blen. rewrite Hl. change (8 * Z.of_nat 4 - 1) with 31.
+  replace (be_to_Z l <? 2 ^ 31) with true by (symmetry; apply Z.ltb_lt; exact Hv). reflexivity.
+Qed.
+
+(* int_to_bytes on a timestamp in range: between 1 and 4 bytes, big-endian value t *)
+Lemma int_to_bytes_ts fl2 t :
+  fl2_exact_below31 fl2 -> 0 <= t < 2 ^ 31 ->
+  exists k, (1 <= k <= 4)%nat /\ int_to_bytes fl2 t = Some (Z_to_be k t) /\ t < 256 ^ Z.of_nat k.
+Proof.
+  intros Hf Ht. unfold int_to_bytes.
+  replace (t <? 0) with false by (symmetry; apply Z.ltb_ge; lia).
+  rewrite Z.abs_eq by lia. cbv zeta.
+  set (m := if t =? 0 then 1 else fl2 t + 1).
+  assert (Hm : 1 <= m <= 31 /\ t < 2 ^ m).
+  { subst m. destruct (t =? 0) eqn:E.
+    - apply Z.eqb_eq in E. subst t. split; [lia|reflexivity].
+    - apply Z.eqb_neq in E. rewrite Hf by lia.
+      assert (Hp : 0 < t) by lia.
+      pose proof (Z.log2_spec t Hp) as Hs. pose proof (Z.log2_nonneg t) as Hn.
+      assert (Z.log2 t < 31) by (apply Z.log2_lt_pow2; lia).
+      split; [lia|]. replace (Z.log2 t + 1) with (Z.succ (Z.log2 t)) by lia. lia. }
+  destruct Hm as [Hm1 Hm2].
+  set (nb := if m mod 8 =? 0 then (m + 7) / 8 + 1 else (m + 7) / 8).
+  assert (Hnb : 1 <= nb <= 4 /\ m <= 8 * nb - 1).
+  { subst nb. destruct (m mod 8 =? 0) eqn:E; [apply Z.eqb_eq in E|apply Z.eqb_neq in E];
+      Z.div_mod_to_equations; lia. }
+  destruct Hnb as [Hnb1 Hnb2].
+  assert (Hlt : t < 2 ^ (8 * nb)).
+  { pose proof (Z.pow_le_mono_r 2 m (8 * nb) ltac:(lia) ltac:(lia)). lia. }
+  unfold to_bytes.
+  replace (t <? 0) with false by (symmetry; apply Z.ltb_ge; lia).
+  replace (2 ^ (8 * nb) <=? t) with false by (symmetry; apply Z.leb_gt; lia).
+  replace (nb <? 0) with false by (symmetry; apply Z.ltb_ge; lia).
+  cbn [orb]. exists (Z.to_nat nb). split; [lia|]. split; [reflexivity|].
+  rewrite Z2Nat.id by lia. rewrite pow256_2 by lia. exact Hlt.
+Qed.
+
+(* the 4-byte timestamp field produced by Certificate.preimage *)
+Lemma ts_field fl2 t :
+  fl2_exact_below31 fl2 -> 0 <= t < 2 ^ 31 ->
+  exists x, int_to_bytes fl2 t = Some x /\ List.length (pad4 x) = 4%nat /\
+            be_to_Z (pad4 x) = t /\ bytes_to_int (pad4 x) = Some t.
+Proof.
+  intros Hf Ht. destruct (int_to_bytes_ts fl2 t Hf Ht) as (k & Hk & Hi & Hlt).
+  exists (Z_to_be k t). split; [exact Hi|].
+  assert (Hl : List.length (pad4 (Z_to_be k t)) = 4%nat) by (apply pad4_length; rewrite length_Z_to_be; lia).
+  assert (Hv : be_to_Z (pad4 (Z_to_be k t)) = t).
+  { rewrite pad4_value, be_to_Z_Z_to_be. apply Z.mod_small. lia. }
+  split; [exact Hl|]. split; [exact Hv|].
+  rewrite bytes_to_int_4 by (rewrite ?Hv; lia || exact Hl). rewrite Hv. reflexivity.
+Qed.
+
+(* the serialised certificate: the five fields at the offsets the lock splits at *)
+Theorem cert_pack_shape fl2 D b e can csig :
+  fl2_exact_below31 fl2 ->
+  List.length D = 32%nat -> List.length csig = 64%nat -> 0 <= b < 2 ^ 31 -> 0 <= e < 2 ^ 31 ->
+  exists bb eb,
+    cert_pack fl2 D b e can csig = Some (D ++ bb ++ eb ++ [can_byte can] ++ csig) /\
+    List.length bb = 4%nat /\ List.length eb = 4%nat /\
+    be_to_Z bb = b /\ be_to_Z eb = e /\ bytes_to_int bb = Some b /\ bytes_to_int eb = Some e.
+Proof.
+  intros Hf LD Lc Hb He.
+  destruct (ts_field fl2 b Hf Hb) as (xb & Ib & Lb & Vb & Db).
+  destruct (ts_field fl2 e Hf He) as (xe & Ie & Le & Ve & De).
+  exists (pad4 xb), (pad4 xe).
+  split; [|repeat split; assumption].
+  unfold cert_pack, cert_preimage, blen. rewrite LD, Lc.
+  change (Z.of_nat 64 =? 64) with true. change (Z.of_nat 32 =? 32) with true. cbn [negb].
+  replace ((0 <=? b) && (b <? 2 ^ 31)) with true
+    by (symmetry; apply andb_true_iff; split; [apply Z.leb_le|apply Z.ltb_lt]; lia).
+  replace ((0 <=? e) && (e <? 2 ^ 31)) with true
+    by (symmetry; apply andb_true_iff; split; [apply Z.leb_le|apply Z.ltb_lt]; lia).
+  cbn [negb]. rewrite Ib, Ie. f_equal. rewrite <- !app_assoc. reflexivity.
+Qed.
+
+Lemma cert_unpack_fields D bb eb c csig b e :
+  List.length D = 32%nat -> List.length bb = 4%nat -> List.length eb = 4%nat -> List.length csig = 64%nat ->
+  bytes_to_int bb = Some b -> bytes_to_int eb = Some e ->
+  cert_unpack (D ++ bb ++ eb ++ [c] ++ csig) = Some (D, b, e, b2z c =? 255, csig).
+Proof.
+  intros LD Lb Le Lc Db De. unfold cert_unpack, blen.
+  repeat rewrite app_length. rewrite LD, Lb, Le, Lc. cbn [List.length].
+  change (Z.of_nat (32 + (4 + (4 + (1 + 64)))) =? 105) with true. cbn [negb]. cbv zeta.
+  rewrite (firstn_len_app D), (skipn_len_app D) by exact LD.
+  rewrite (firstn_len_app bb), (skipn_len_app bb) by exact Lb.
+  rewrite (firstn_len_app eb), (skipn_len_app eb) by exact Le.
+  rewrite Db, De. reflexivity.
+Qed.
+
+Theorem cert_roundtrip fl2 D b e can csig :
+  fl2_exact_below31 fl2 ->
+  List.length D = 32%nat -> List.length csig = 64%nat -> 0 <= b < 2 ^ 31 -> 0 <= e < 2 ^ 31 ->
+  exists p, cert_pack fl2 D b e can csig = Some p /\ List.length p = 105%nat /\
+            cert_unpack p = Some (D, b, e, can, csig).
+Proof.
+  intros Hf LD Lc Hb He.
+  destruct (cert_pack_shape fl2 D b e can csig Hf LD Lc Hb He) as (bb & eb & Hp & Lb & Le & _ & _ & Db & De).
+  exists (D ++ bb ++ eb ++ [can_byte can] ++ csig). split; [exact Hp|]. split.
+  - repeat rewrite app_length. rewrite LD, Lb, Le, Lc. reflexivity.
+  - rewrite (cert_unpack_fields D bb eb (can_byte can) csig b e LD Lb Le Lc Db De).
+    destruct can; reflexivity.
+Qed.
+
+Corollary cert_roundtrip_exact D b e can csig :
+  List.length D = 32%nat -> List.length csig = 64%nat -> 0 <= b < 2 ^ 31 -> 0 <= e < 2 ^ 31 ->
+  exists p, cert_pack fl2_exact D b e can csig = Some p /\ List.length p = 105%nat /\
+            cert_unpack p = Some (D, b, e, can, csig).
+Proof. apply cert_roundtrip. exact fl2_exact_is_exact_below31. Qed.
+
+(* fl2_ok alone (floor(log2) possibly one too large, as for big arguments of math.log2) would not do: an
+   over-estimate at 2^30 yields a 5-byte field, hence a 106-byte string that unpack rejects *)
+Lemma fl2_ok_not_enough :
+  exists fl2, fl2_ok fl2 /\
+    exists p, cert_pack fl2 (repeat x00 32) (2 ^ 30) 0 true (repeat x00 64) = Some p /\ cert_unpack p = None.
+Proof.
+  exists (fun a => Z.log2 a + 1). split; [intros a Ha; lia|].
+  eexists. split; vm_compute; reflexivity.
+Qed.
+
+Lemma cert_pack_preimage fl2 D b e can csig p :
+  cert_pack fl2 D b e can csig = Some p ->
+  exists pre, cert_preimage fl2 D b e can = Some pre /\ p = pre ++ csig.
+Proof.
+  unfold cert_pack. destruct (negb (blen csig =? 64)); [discriminate|].
+  destruct (cert_preimage fl2 D b e can) as [pre|]; [|discriminate].
+  intro H. injection H as <-. exists pre. split; reflexivity.
+Qed.
+
+(* ---------------------------------------------------------------------------------------------- *)
+(* 2 + 3: the lock on a certificate serialised by Certificate.pack                                 *)
+(* ---------------------------------------------------------------------------------------------- *)
+
+Section Packed.
+Variable orc : oracle.
+Variable cfg : config.
+Hypothesis Hsize : (105 <= c_max_item_size cfg)%nat.
+Hypothesis Hitems : (4 <= c_max_items cfg)%nat.
+
+(* any fuel >= 28 *)
+Theorem delegate_lock_exact_fuel fuel root D b e csig sig can fl ts thr vals :
+  (28 <= fuel)%nat ->
+  List.length root = 32%nat -> List.length D = 32%nat -> List.length b = 4%nat -> List.length e = 4%nat ->
+  List.length csig = 64%nat -> (List.length sig = 64%nat \/ List.length sig = 65%nat) ->
+  flag_get (c_flags cfg) thr_key = Some (FVInt thr) ->
+  cache_get (init_cache cfg vals) ts_key = Some (VOne (AInt ts)) ->
+  match run_auth_scripts orc cfg fuel
+          [delegate_key_witness sig (D ++ b ++ e ++ [can] ++ csig); delegate_key_lock root fl] vals with
+  | AuthVerdict v _ => v = true <-> delegate_accepts orc cfg root D b e csig sig can fl ts thr (init_cache cfg vals)
+  | AuthFuel => False
+  | AuthUnmod _ => delegate_unmod orc cfg root D b e csig sig can ts thr (init_cache cfg vals)
+  end.
+Proof.
+  intros Hf LR LD Lb Le Lc Ls Hthr Hts.
+  replace fuel with (28 + (fuel - 28))%nat by lia.
+  exact (delegate_lock_exact orc cfg Hsize Hitems root D b e csig sig can fl ts thr LR LD Lb Le Lc Ls Hthr _ vals Hts).
+Qed.
+
+Theorem delegate_lock_true_iff_fuel fuel root D b e csig sig can fl ts thr vals :
+  (28 <= fuel)%nat ->
+  List.length root = 32%nat -> List.length D = 32%nat -> List.length b = 4%nat -> List.length e = 4%nat ->
+  List.length csig = 64%nat -> (List.length sig = 64%nat \/ List.length sig = 65%nat) ->
+  flag_get (c_flags cfg) thr_key = Some (FVInt thr) ->
+  cache_get (init_cache cfg vals) ts_key = Some (VOne (AInt ts)) ->
+  ((exists stf, run_auth_scripts orc cfg fuel
+       [delegate_key_witness sig (D ++ b ++ e ++ [can] ++ csig); delegate_key_lock root fl] vals
+       = AuthVerdict true stf)
+   <-> delegate_accepts orc cfg root D b e csig sig can fl ts thr (init_cache cfg vals)).
+Proof.
+  intros Hf LR LD Lb Le Lc Ls Hthr Hts.
+  replace fuel with (28 + (fuel - 28))%nat by lia.
+  exact (delegate_lock_true_iff orc cfg Hsize Hitems root D b e csig sig can fl ts thr LR LD Lb Le Lc Ls Hthr _ vals Hts).
+Qed.
+
+(* the certificate (D, begin, end, can, csig) as serialised by Certificate.pack: the lock accepts exactly when
+   begin <= t within the slack, t < end, csig verifies under root over Certificate.preimage, and sig verifies
+   under D over the transaction's signature fields *)
+Theorem delegate_lock_packed fl2 fuel root D bts ets can csig sig fl ts thr vals :
+  fl2_exact_below31 fl2 -> (28 <= fuel)%nat ->
+  List.length root = 32%nat -> List.length D = 32%nat -> List.length csig = 64%nat ->
+  0 <= bts < 2 ^ 31 -> 0 <= ets < 2 ^ 31 ->
+  (List.length sig = 64%nat \/ List.length sig = 65%nat) ->
+  flag_get (c_flags cfg) thr_key = Some (FVInt thr) ->
+  cache_get (init_cache cfg vals) ts_key = Some (VOne (AInt ts)) ->
+  exists pre cert,
+    cert_preimage fl2 D bts ets can = Some pre /\ cert_pack fl2 D bts ets can csig = Some cert /\
+    ((exists stf, run_auth_scripts orc cfg fuel [delegate_key_witness sig cert; delegate_key_lock root fl] vals
+                  = AuthVerdict true stf)
+     <-> ts_verdict cfg bts ts thr = true /\ ts < ets /\
+         (exists x, orc PVerify [root; pre; csig] = OOk [x] /\ bytes_to_bool x = true) /\
+         sig_accepts orc cfg D sig (b2z fl) (init_cache cfg vals)).
+Proof.
+  intros Hfl Hf LR LD Lc Hb He Ls Hthr Hts.
+  destruct (cert_pack_shape fl2 D bts ets can csig Hfl LD Lc Hb He) as (bb & eb & Hp & Lb & Le & Vb & Ve & _ & _).
+  destruct (cert_pack_preimage _ _ _ _ _ _ _ Hp) as (pre & Hpre & Heq).
+  assert (Epre : pre = D ++ bb ++ eb ++ [can_byte can]).
+  { apply (app_inv_tail csig). rewrite <- Heq. rewrite <- !app_assoc. reflexivity. }
+  subst pre.
+  exists (D ++ bb ++ eb ++ [can_byte can]), (D ++ bb ++ eb ++ [can_byte can] ++ csig).
+  split; [exact Hpre|]. split; [exact Hp|].
+  rewrite (delegate_lock_true_iff_fuel fuel root D bb eb csig sig (can_byte can) fl ts thr vals Hf LR LD Lb Le Lc Ls Hthr Hts).
+  unfold delegate_accepts, cert_ok, preimage. rewrite Vb, Ve.
+  split.
+  - intros (H1 & H2 & H3 & H4). split; [exact H1|]. split; [|split; assumption].
+    apply (end_test_meaning cfg bts ets ts thr H1). exact H2.
+  - intros (H1 & H2 & H3 & H4). split; [exact H1|]. split; [|split; assumption].
+    apply (end_test_meaning cfg bts ets ts thr H1). exact H2.
+Qed.
+
+End Packed.
